@@ -301,6 +301,37 @@ func runDriveFile(args []string) int {
 	if json.Unmarshal(ob, &cf) == nil && cf["failed"] == true {
 		lg.emit(map[string]interface{}{"ev": "openfail", "p": "x1", "what": "Create: Truncate fails (RLIMIT_FSIZE)", "probe": cf["probe"], "err": cf["err"]})
 	}
+	// the lock must not outlive the handle through a child process started while the handle was open (the descriptor
+	// is close-on-exec): Open / Create, start a child that just sleeps, Close, probe at once
+	for i, how := range []string{"Open", "Create"} {
+		p := filepath.Join(dir, fmt.Sprintf("exec%d.wsp", i))
+		var db *wt.Whisper
+		var err error
+		if how == "Open" {
+			if db, err = wt.Create(p, []wt.ArchiveInfo{wt.NewArchiveInfo(1, 10)}, wt.Sum, 0); err == nil {
+				db.Sync()
+				db.Close()
+				db, err = wt.Open(p)
+			}
+		} else {
+			db, err = wt.Create(p, []wt.ArchiveInfo{wt.NewArchiveInfo(1, 10)}, wt.Sum, 0)
+		}
+		if err != nil {
+			fmt.Fprintln(os.Stderr, "exec probe:", err)
+			return 2
+		}
+		child := exec.Command("sleep", "2")
+		if err := child.Start(); err != nil {
+			db.Close()
+			continue // no such program here: nothing to observe
+		}
+		db.Sync()
+		db.Close()
+		probe := lockProbe(p)
+		child.Process.Kill()
+		child.Wait()
+		lg.emit(map[string]interface{}{"ev": "openfail", "p": "x1", "what": "lock after Close of a handle from " + how + " while a child process started during its life is still running", "probe": probe})
+	}
 	return 0
 }
 
